@@ -103,9 +103,44 @@ def coq_build(root, clean=False):
             return False, out, "coq_makefile"
     if clean:
         run(["make", "clean"], cwd=cq)
-    cmd = "cd coq && coq_makefile -f _CoqProject -o Makefile && make -j16"
-    rc, out, _ = run(["make", "-j16"], cwd=cq, timeout=3000)
+    cmd = "cd coq && coq_makefile -f _CoqProject -o Makefile && make -k -j16"
+    rc, out, _ = run(["make", "-k", "-j16"], cwd=cq, timeout=3000)
     return rc == 0, out, cmd
+
+
+def coq_closure(root, rel):
+    """Set of theories/*.v files the given file transitively depends on (through coqdep), itself included."""
+    cq = os.path.join(root, "coq")
+    files = coq_files(root)
+    rc, out, _ = run(["coqdep", "-Q", "theories", "Atlas"] + files, cwd=cq, timeout=600)
+    deps = {}
+    for line in out.splitlines():
+        if ":" not in line:
+            continue
+        lhs, rhs = line.split(":", 1)
+        tg = [t for t in lhs.split() if t.endswith(".vo")]
+        if not tg:
+            continue
+        src = tg[0][:-1]
+        deps.setdefault(src, set()).update(d[:-1] for d in rhs.split() if d.endswith(".vo"))
+    seen, todo = set(), [rel]
+    while todo:
+        f = todo.pop()
+        if f in seen:
+            continue
+        seen.add(f)
+        todo += list(deps.get(f, ()))
+    return seen
+
+
+def coq_failed_files(out):
+    """theories/*.v files whose compilation failed in a `make -k` log."""
+    bad = set()
+    for m in re.finditer(r"\*\*\* \[[^\]]*?:\s*(theories/\S+?)\.vo\]", out):
+        bad.add(m.group(1) + ".v")
+    for m in re.finditer(r'File "\./(theories/[^"]+\.v)", line \d+, characters [\d-]+:\s*\nError', out):
+        bad.add(m.group(1))
+    return bad
 
 
 def forbidden_scan(root):
@@ -224,6 +259,20 @@ def harness_build(root, engine):
     rc, out, _ = run(["go", "build", "-tags", "verif", "-o", binp, "./cmd/" + engine],
                      cwd=os.path.join(root, "harness"), env=goenv(), timeout=1800)
     return rc == 0, out
+
+
+def run_gen(root, g):
+    """Run a generator harness: h_<harness> <args> -out coq/theories/gen (it must rewrite files only when content changes)."""
+    okh, outh = harness_build(root, g["harness"])
+    if not okh:
+        return False, "harness build failed: " + outh[-1500:]
+    env = goenv(); env["VERIF_ROOT"] = root; env["VERIF_REPO"] = REPO
+    gdir = os.path.join(root, "coq", "theories", "gen")
+    os.makedirs(gdir, exist_ok=True)
+    rc, out, _ = run([os.path.join(root, "build", "h_" + g["harness"])] + g["args"] + ["-out", gdir], env=env, timeout=900)
+    if rc != 0:
+        return False, "generator failed: " + out[-1500:]
+    return True, "ok"
 
 
 def cli_build(root):
@@ -376,6 +425,14 @@ def main(root, argv):
 def setup(root):
     t0 = time.time()
     with Lock(root):
+        for p in sorted(glob.glob(os.path.join(root, "props", "C*.json"))):
+            cfg = json.load(open(p))
+            if cfg.get("claimed") is False or not cfg.get("gen"):
+                continue
+            ok, out = run_gen(root, cfg["gen"])
+            log("gen", cfg["id"], "ok" if ok else "FAILED " + out)
+            if not ok:
+                return 1
         ok, out, _ = coq_build(root)
         log("coq build:", "ok" if ok else "FAILED")
         if not ok:
@@ -417,19 +474,22 @@ def check(root, pid, tier, seed, write_evidence=True):
     # ---- 1. proofs
     with Lock(root):
         if cfg.get("gen"):
-            # regenerate the table-driven model parts from the running Go code
-            g = cfg["gen"]
-            okh, outh = harness_build(root, g["harness"])
-            if not okh:
-                problems_corr.append("harness build failed: " + outh[-1500:])
-            else:
-                env = goenv(); env["VERIF_ROOT"] = root
-                rc, out, _ = run([os.path.join(root, "build", "h_" + g["harness"])] + g["args"] + ["-out", os.path.join(root, "coq", "theories", "gen")], env=env, timeout=600)
-                if rc != 0:
-                    problems_corr.append("generator failed: " + out[-1500:])
+            # regenerate the table-driven model parts from the running Go code (the translator, DESIGN 2.4)
+            okg, outg = run_gen(root, cfg["gen"])
+            if not okg:
+                problems_corr.append(outg)
         ok, out, cmd = coq_build(root, clean=(tier == "thorough" and os.environ.get("VERIF_NO_CLEAN") != "1"))
         if not ok:
-            problems_proof.append("coq build failed: " + out[-2500:])
+            # a file outside this property's dependency closure may be broken (another property's obligation):
+            # that is not this property's concern. Only failures inside the closure count.
+            failed = coq_failed_files(out)
+            closure = coq_closure(root, cfg["props_file"])
+            mine = sorted(failed & closure)
+            if mine or not failed:
+                problems_proof.append("coq build failed (%s): %s" % (", ".join(mine) or "make", out[-2500:]))
+            else:
+                log("  note: coq files outside %s's closure fail to build: %s" % (pid, ", ".join(sorted(failed))))
+                ok = True
         bad = forbidden_scan(root)
         if bad:
             problems_proof.append("forbidden vernacular: " + "; ".join(bad[:10]))
